@@ -6,8 +6,18 @@ import (
 	"capnproto.org/go/capnp/v3/internal/verif/c15/layout"
 )
 
-// Offsets is the slot-offset alphabet of the enumeration.
+// Offsets is the slot-offset alphabet of the enumeration (the thorough tier
+// uses every offset 0..13 for union members, too).
 var Offsets = []uint32{0, 1, 2, 3, 5, 8, 13}
+
+var denseOffsets = []uint32{0, 1, 2, 3, 4, 5, 6, 7, 8, 9, 10, 11, 12, 13}
+
+func (sc Scope) offsets() []uint32 {
+	if sc.Full {
+		return denseOffsets
+	}
+	return Offsets
+}
 
 // DataKinds are the kinds stored in the data section (besides Void).
 var DataKinds = []Kind{Bool, Int8, Int16, Int32, Int64, Uint8, Uint16, Uint32, Uint64, Float32, Float64, Enum}
@@ -269,9 +279,9 @@ var discVariants = []struct {
 	Off uint32
 }{{"0", 0}, {"1", 1}, {"3", 3}, {"H", 56}}
 
-func addDataMembers(env *Env, n *Node, d DefKind, reserved [][2]int, shift func(k Kind) uint32) {
+func addDataMembers(env *Env, n *Node, d DefKind, reserved [][2]int, shift func(k Kind) uint32, offs []uint32) {
 	for _, k := range DataKinds {
-		for _, o := range Offsets {
+		for _, o := range offs {
 			off := o
 			if shift != nil {
 				off += shift(k)
@@ -300,7 +310,7 @@ func buildUnion(sc Scope) *File {
 			s.DiscOffset = dv.Off
 			ds, dw := layout.DiscriminantBits(dv.Off)
 			s.AddMember("mVoidA", T(Void), 0, Default{})
-			addDataMembers(env, s, d, [][2]int{{ds, dw}}, nil)
+			addDataMembers(env, s, d, [][2]int{{ds, dw}}, nil, sc.offsets())
 			s.AddMember("mVoidB", T(Void), 0, Default{})
 			// an ordinary field behind the union
 			s.Add("tail", T(Uint64), 15, DataDefault(Uint64, d))
@@ -333,7 +343,7 @@ func buildUnionPtr(sc Scope) *File {
 					}
 					d = *pt.Def
 				}
-				for _, o := range Offsets {
+				for _, o := range sc.offsets() {
 					s.AddMember(fmt.Sprintf("m%so%d", pt.Tag, o), pt.Ty, o, d)
 				}
 			}
@@ -409,7 +419,7 @@ func buildGroup(sc Scope) *File {
 			un := s.AddGroup("u", false)
 			un.DiscOffset = 2 // bits 32..47
 			un.AddMember("none", T(Void), 0, Default{})
-			addDataMembers(env, un, d, [][2]int{{0, 48}}, nil)
+			addDataMembers(env, un, d, [][2]int{{0, 48}}, nil, sc.offsets())
 			for i, pt := range pts {
 				df := Default{}
 				if d != DZero && pt.Def != nil {
